@@ -1,7 +1,62 @@
 import Rare.Base.Proto
+import Rare.Model.C16
 namespace Rare.Drv.C16
+open Rare Rare.C16 Rare.Proto
 
+def parseNT (s : String) : Option (List (Bytes × Int)) :=
+  if s = "." then some []
+  else (s.splitOn ";").mapM fun e =>
+    match e.splitOn ":" with
+    | [h, i] => do
+      let n ← Hex.dec h
+      let v ← i.toInt?
+      pure (n, v)
+    | _ => none
+
+def parseInts (s : String) : Option (List Int) :=
+  if s = "." then some [] else (s.splitOn ",").mapM (·.toInt?)
+
+def tag : JVal → Bytes
+  | .str s => 0x73 :: s
+  | .num m e => ascii s!"n{m}e{e}"
+  | .bool true => ascii "t"
+  | .bool false => ascii "f"
+  | .null => ascii "z"
+
+/-- the observables of one JSON text: the text, validity (RFC 8259 parser of the spec), members -/
+def describe (out : Bytes) : String :=
+  match parseObj out with
+  | none => s!"ok {Hex.enc out} v=0 m=x"
+  | some ms =>
+    if !(ByteArray.mk out.toArray).validateUTF8 then s!"ok {Hex.enc out} v=1 m=nonutf8"
+    else s!"ok {Hex.enc out} v=1 m={hexList (ms.flatMap fun p => [p.1, tag p.2])}"
+
+def big : Int := 4611686018427387904
+
+/-- `json <named> <numbered> <name table> <indices> <line>` /
+    `special <matches> <keys> <values>` -/
 def handle : List String → String
+  | ["json", n, u, nt, ix, ln] =>
+    match parseNT nt, parseInts ix, Hex.dec ln with
+    | some order, some indices, some line =>
+      if order.any (fun p => p.2 ≥ big ∨ p.2 ≤ -big) then "unmodelled group-number-overflow"
+      else
+        let named := n == "1"
+        let numbered := u == "1"
+        -- two different iteration orders of the same map
+        match json named numbered order indices line, json named numbered order.reverse indices line with
+        | .ok a, .ok b => if a == b then describe a else "nondeterministic"
+        | _, _ => "panic"
+    | _, _, _ => "bad-args"
+  | ["special", ms, ks, vs] =>
+    match decHexList ms, decHexList ks, decHexList vs with
+    | some texts, some keys, some vals =>
+      if keys.length ≠ vals.length then "bad-args"
+      else
+        let a := buildSpecialKeyJson texts (keys.zip vals)
+        let b := buildSpecialKeyJson texts (keys.zip vals).reverse
+        if a == b then describe a else "nondeterministic"
+    | _, _, _ => "bad-args"
   | _ => "bad-op"
 
 end Rare.Drv.C16
